@@ -3,6 +3,7 @@
 package asm
 
 import (
+	"math"
 	"time"
 )
 
@@ -54,12 +55,15 @@ func equalVals(v0, v1 any) (eq bool) {
 		if ok {
 			eq = x == a
 		} else if f, ok2 := asFloat(v1); ok2 {
-			eq = float64(x) == f
+			eq = cmpIntFloat(x, f) == 0
 		}
 	case float32, float64:
 		x, _ := asFloat(v0)
-		a, ok := asFloat(v1)
-		eq = ok && x == a
+		if a, ok := asInt(v1); ok {
+			eq = cmpIntFloat(a, x) == 0
+		} else if f, ok2 := asFloat(v1); ok2 {
+			eq = x == f
+		}
 	case string:
 		a, ok := v1.(string)
 		eq = v0 == a && ok
@@ -87,6 +91,77 @@ func equalVals(v0, v1 any) (eq bool) {
 		}
 	}
 	return
+}
+
+// cmpIntFloat compares an int64 with a float64 by their exact values, not
+// after rounding the integer to a float64: -1, 0 or 1 for i less than, equal
+// to or greater than f, and 2 when f is NaN.
+func cmpIntFloat(i int64, f float64) int {
+	switch {
+	case f != f:
+		return 2
+	case 9223372036854775808.0 <= f:
+		return -1
+	case f < -9223372036854775808.0:
+		return 1
+	}
+	t := math.Trunc(f) // an integer in the int64 range
+	switch ti := int64(t); {
+	case i < ti:
+		return -1
+	case ti < i:
+		return 1
+	case t < f:
+		return -1
+	case f < t:
+		return 1
+	}
+	return 0
+}
+
+// cmpNum compares two numbers by their exact values: -1, 0 or 1, or 2 when
+// one of them is NaN. ok is false if either is not a number.
+func cmpNum(v0, v1 any) (c int, ok bool) {
+	i0, isInt0 := asInt(v0)
+	i1, isInt1 := asInt(v1)
+	switch {
+	case isInt0 && isInt1:
+		switch {
+		case i0 < i1:
+			c = -1
+		case i1 < i0:
+			c = 1
+		}
+		return c, true
+	case isInt0:
+		var f1 float64
+		if f1, ok = asFloat(v1); ok {
+			c = cmpIntFloat(i0, f1)
+		}
+		return
+	case isInt1:
+		var f0 float64
+		if f0, ok = asFloat(v0); ok {
+			if c = cmpIntFloat(i1, f0); c != 2 {
+				c = -c
+			}
+		}
+		return
+	}
+	f0, ok0 := asFloat(v0)
+	f1, ok1 := asFloat(v1)
+	if !ok0 || !ok1 {
+		return 0, false
+	}
+	switch {
+	case f0 != f0 || f1 != f1:
+		c = 2
+	case f0 < f1:
+		c = -1
+	case f1 < f0:
+		c = 1
+	}
+	return c, true
 }
 
 func asInt(v any) (i int64, ok bool) {
